@@ -187,6 +187,47 @@ def _sel(R, unit, only):
                             R.mismatch("second-answer-shows-edits-made-to-the-first", inner, f"index={list(again.index)} values={gv} want={wv}")
                     except Exception as e:
                         R.mismatch("selector-raises-on-repeat:" + type(e).__name__, inner, f"{e!s:.200}")
+    # ---- as_dict=True: the same rows as plain arrays (no labels), for the whole table, one column, a column pair ----
+    for conv in (True, False):
+        try:
+            based = getattr(clr, tab)(as_dict=True, convert_enum=conv)
+        except Exception as e:
+            R.mismatch("selector-raises:" + type(e).__name__, {"as_dict": True, "conv": conv}, f"{e!s:.200}")
+            continue
+        for sub in (None, cols[0], cols[-2:]):
+            sel = based if sub is None else based[sub]
+            want_cols = cols if sub is None else ([sub] if isinstance(sub, str) else sub)
+            for (a, b, lo, hi) in _slices(N):
+                kk += 1
+                inner = {"as_dict": True, "conv": conv, "cols": sub, "a": a, "b": b}
+                if only is not None and only != inner:
+                    continue
+                R.order = (R.order[0], kk)
+                R.ev(1, (hi - lo) not in (0, N))
+                R.add("transitions")
+                R.cls("sel-as-dict:" + tab)
+                try:
+                    res = sel[a:b]
+                    if isinstance(sub, str) and not isinstance(res, dict):
+                        res = {sub: res}
+                    if list(res.keys()) != want_cols:
+                        R.mismatch("columns!=requested", inner, f"got={list(res.keys())} want={want_cols}")
+                        continue
+                    for c in want_cols:
+                        wv = raw[tab][c][lo:hi]
+                        gv = np.asarray(res[c]).tolist()
+                        if tab == "bins" and c == "chrom":
+                            asn = [names[x] for x in wv]
+                            ok = [x.decode() if isinstance(x, bytes) else str(x) for x in gv] == asn or (not conv and gv == wv)
+                        elif tab == "chroms" and c == "name":
+                            ok = [x.decode() if isinstance(x, bytes) else str(x) for x in gv] == [str(x) for x in wv]
+                        else:
+                            ok = gv == wv
+                        if not ok:
+                            R.mismatch("rows!=stored-rows", inner, f"col={c} got={gv} want={wv}")
+                            break
+                except Exception as e:
+                    R.mismatch("selector-raises:" + type(e).__name__, inner, f"{e!s:.200}")
     R.sample({"leg": "sel", "table": tab, "N": N, "enc": unit["enc"], "slices": len(_slices(N)), "column_selections": len(subsets)})
 
 
